@@ -1161,6 +1161,10 @@ static bool _advance_parsing(binson_parser *parser, uint8_t scan_flags, bbuf *sc
                             return false;
                         }
                     }
+                    else {
+                        /* Back in the enclosing array: no container element is pending. */
+                        state->flags = BINSON_STATE_IN_ARRAY_1;
+                    }
 
                 }
                 else {
